@@ -49,6 +49,15 @@ func vf10Prop() string {
 	return "C10"
 }
 
+// vf10Anchor: a broken reference is an infrastructure failure, not a violation
+// (the process exits without running tests; the driver reports INCONCLUSIVE).
+func vf10Anchor() {
+	if err := refobfs2.Anchor(); err != nil {
+		fmt.Printf("VERIF-INFRA: refobfs2 anchor failed: %v\ntesting: warning: no tests to run\n", err)
+		os.Exit(0)
+	}
+}
+
 // Fixed bounds (constants, independent of the input size).
 const (
 	// Largest buffer the handshake may ask the network to fill: the padding
@@ -71,6 +80,7 @@ type vf10Conn struct {
 	maxSetupRead atomic.Int64 // largest buffer passed to Read while Dial / WrapConn was running
 	readErrs     atomic.Int64 // errors returned to the code under test
 	writeErrs    atomic.Int64
+	setupWrErrs  atomic.Int64 // write errors returned while Dial / WrapConn was running
 }
 
 func (c *vf10Conn) Read(b []byte) (int, error) {
@@ -88,6 +98,9 @@ func (c *vf10Conn) Write(b []byte) (int, error) {
 	n, err := c.Conn.Write(b)
 	if err != nil {
 		c.writeErrs.Add(1)
+		if c.inSetup.Load() {
+			c.setupWrErrs.Add(1)
+		}
 	}
 	return n, err
 }
@@ -432,8 +445,8 @@ func vf10Run(cs *vf10Case) (string, *vf10Out) {
 	}
 	out.delivered = ep.GotLen()
 	out.pastHeader = out.setupOK || out.consumed > refobfs2.SeedLen+refobfs2.HeaderLen
-	if !out.setupOK && wc.writeErrs.Load() > 0 && ep.SetupErr() == nil {
-		return fail("VIOL[c10-obfs2-error-swallowed]: a write failed during the handshake and the handshake did not return an error")
+	if wc.setupWrErrs.Load() > 0 && ep.SetupErr() == nil {
+		return fail("VIOL[c10-obfs2-error-swallowed]: a write of the connection failed during the handshake and the handshake did not return an error")
 	}
 	if out.setupOK && ep.ReadErr() == nil {
 		return fail("VIOL[c10-obfs2-hang]: read loop ended without an error")
@@ -588,7 +601,7 @@ func TestVerifC10Obfs2Bytes(t *testing.T) {
 	c := ev.For(vf10Prop())
 	c.Rule("obfs2-bytes: real client (Dial) or server (WrapConn) against a scripted peer over the gated wire: input shapes random / shorter than the header / valid key-establishment message then garbage up to 1 MiB / valid prefix cut at every kind of offset / wrong magic (single bit, random) / PADLEN 8193..2^32-1 / maximum padding then garbage / fewer padding bytes than announced / zeros / two handshakes; chunk plans (1..65536, all), wire read caps, real-side padding steered; application writes; ending EOF / read error at an offset / fired handshake deadline / write error at an offset of the real side's output; oracle: no panic, every call returns once the ending is delivered (quiescence; wedge only after 20 s + 60 s), largest handshake read request <= 16392 bytes, injected write errors are returned, deadline armed before the first Read and cleared after success, fired deadline ends the handshake with an error; non-trivial = the handshake got past the magic/PADLEN check (consumed more than seed+header, or succeeded); fingerprint = case structure")
 	c.Assume("the harness wire delivers every event that could wake the endpoint; quiescence = goroutine finished or parked in the wire's Read")
-	c.Floor("obfs2-bytes-past-magic-check/obfs2-bytes", 0.30)
+	c.Floor("obfs2-bytes-past-magic-check/obfs2-bytes", 0.20)
 	c.Floor("obfs2-bytes-input>=64KiB/obfs2-bytes", 0.10)
 	c.Floor("obfs2-bytes-deadline-fired/obfs2-bytes", 0.05)
 	c.Floor("obfs2-bytes-write-error-hit/obfs2-bytes", 0.04)
